@@ -95,7 +95,7 @@ def build_harness():
 
 
 # source file of the harness -> cargo feature
-HARNESS_FEATURES = {"ir_export": "ir", "names_cmd": "names", "query_cmd": "query", "hir_cmd": "hir", "ast_export": "asttrees", "web_cmd": "web"}
+HARNESS_FEATURES = {"ir_export": "ir", "names_cmd": "names", "query_cmd": "query", "hir_cmd": "hir", "ast_export": "asttrees", "web_cmd": "web", "trace_hooks": "hooks"}
 
 
 def _need_for(cmd, requests):
@@ -340,7 +340,7 @@ def run_tlc(module, cfg=None, env=None, workers=1, xmx="2g", timeout=900, simula
     return r
 
 
-_cov_re = re.compile(r"^<(\w+) line \d+, col \d+ to line \d+, col \d+ of module (\w+)>: (\d+):(\d+)")
+_cov_re = re.compile(r"^<(\w+) line \d+, col \d+ to line \d+, col \d+ of module (\w+)(?: \([\d ]+\))?>: (\d+):(\d+)")
 
 
 def parse_tlc_output(r):
